@@ -134,7 +134,7 @@ HARNESSES = [
          encodes=["tinylfu_cached::cache::command::command_executor::CommandExecutor::{spin (worker closure: Put, PutWithTTL arms),put,put_with_ttl,send}", "AdmissionPolicy::{maybe_add,create_space}", "Store::{put,put_with_ttl,delete (as eviction hook)}", "TTLTicker::put", "CommandAcknowledgementHandle::done"]),
     dict(name="c05_worker_put_step_q1", group="c05_worker_put_step", file="cached.rs", props=["C05"], timeout=1800,
          encodes=["tinylfu_cached::cache::command::command_executor::CommandExecutor::{spin (worker closure: Put, PutWithTTL arms),put,put_with_ttl,send}", "AdmissionPolicy::{maybe_add,create_space}", "Store::{put,put_with_ttl,delete (as eviction hook)}", "TTLTicker::put", "CommandAcknowledgementHandle::done"]),
-    dict(name="c05_worker_put_step_q2", group="c05_worker_put_step", file="cached.rs", props=["C05", "C01", "C03"], timeout=1800,
+    dict(name="c05_worker_put_step_q2", group="c05_worker_put_step", file="cached.rs", props=["C05", "C01", "C03", "C18"], timeout=1800,
          encodes=["tinylfu_cached::cache::command::command_executor::CommandExecutor::{spin (worker closure: Put, PutWithTTL arms),put,put_with_ttl,send}", "AdmissionPolicy::{maybe_add,create_space}", "Store::{put,put_with_ttl,delete (as eviction hook)}", "TTLTicker::put", "CommandAcknowledgementHandle::done"]),
     dict(name="c05_worker_put_step_q3", group="c05_worker_put_step", file="cached.rs", props=["C05"], timeout=1800,
          encodes=["tinylfu_cached::cache::command::command_executor::CommandExecutor::{spin (worker closure: Put, PutWithTTL arms),put,put_with_ttl,send}", "AdmissionPolicy::{maybe_add,create_space}", "Store::{put,put_with_ttl,delete (as eviction hook)}", "TTLTicker::put", "CommandAcknowledgementHandle::done"]),
@@ -158,6 +158,8 @@ HARNESSES = [
          encodes=["tinylfu_cached::cache::cached::CacheD::{put_with_weight,delete,get}", "CommandExecutor::{send,spin (worker closure)}", "crossbeam_channel (model): blocking send on a full queue"]),
     dict(name="c13_shutdown_gate_and_drain", file="cached.rs", props=["C13", "C18"], timeout=1200,
          encodes=["tinylfu_cached::cache::cached::CacheD::{shutdown,is_shutting_down + every read and write entry point}", "CommandExecutor::{shutdown,spin (worker closure: Shutdown arm + drain)}", "AdmissionPolicy::{shutdown,clear}", "TTLTicker::{shutdown,clear}", "Store::clear"]),
+    dict(name="c13_late_send_races_drain", file="cached.rs", props=["C13", "C12"], timeout=900,
+         encodes=["tinylfu_cached::cache::command::command_executor::CommandExecutor::{shutdown,send,spin (worker closure: Shutdown arm + drain loop)}", "CommandAcknowledgementHandle::done"]),
     dict(name="c13_command_behind_shutdown_is_answered", file="cached.rs", props=["C13", "C12"], timeout=900,
          encodes=["tinylfu_cached::cache::command::command_executor::CommandExecutor::{shutdown,send,spin (worker closure: drain loop)}"]),
     dict(name="c10_sweep_with_stale_entry", file="cached.rs", props=["C10"], timeout=1200,
@@ -166,6 +168,8 @@ HARNESSES = [
          encodes=["tinylfu_cached::cache::expiration::TTLTicker::spin (sweeper closure)", "CacheD::ttl_ticker (evict hook)", "AdmissionPolicy::delete_with_hook", "CacheWeight::delete", "Store::delete"]),
     dict(name="c15_consumer_applies_each_batch_once", file="admission_policy.rs", props=["C15"], timeout=900,
          encodes=["tinylfu_cached::cache::policy::admission_policy::AdmissionPolicy::{with_channel_capacity,start (consumer closure),accept,estimate}", "TinyLFU::{new,increment_access}"]),
+    dict(name="c15_consumer_races_estimate", file="admission_policy.rs", props=["C15"], timeout=900,
+         encodes=["tinylfu_cached::cache::policy::admission_policy::AdmissionPolicy::{start (consumer closure),estimate,accept}"]),
     dict(name="c13_consumer_stops_on_shutdown", file="admission_policy.rs", props=["C13"], timeout=900,
          encodes=["tinylfu_cached::cache::policy::admission_policy::AdmissionPolicy::{shutdown,clear,accept,start (consumer closure)}"]),
 ]
